@@ -267,13 +267,21 @@ def required_attributes(ctx):
     ir = sm.func('XSDAttribute', 'is_required', T.M_ATTR)
     uses = [n for n in ast.walk(ir.node) if isinstance(n, ast.Compare) and "get('use')" in unparse(n.left)]
     ok = False
-    if len(uses) == 1 and isinstance(uses[0].ops[0], ast.Eq) and const_value(uses[0].comparators[0]) == 'required':
-        # the branch taken for equality stores True, the other False
+    if len(uses) == 1 and isinstance(uses[0].ops[0], (ast.Eq, ast.NotEq)) and const_value(uses[0].comparators[0]) == 'required':
+        positive = isinstance(uses[0].ops[0], ast.Eq)
         for n in ast.walk(ir.node):
+            # canonical form (mxsa/normalise.py): `x = <comparison>`; an if/else storing other things is examined branch by branch
+            if isinstance(n, (ast.Assign, ast.Return)) and n.value is not None:
+                v = n.value
+                neg = False
+                while isinstance(v, ast.UnaryOp) and isinstance(v.op, ast.Not):
+                    v, neg = v.operand, not neg
+                if v is uses[0]:
+                    ok = (positive != neg)
             if isinstance(n, ast.If) and n.test is uses[0]:
-                tv = [unparse(s.value) for s in n.body if isinstance(s, ast.Assign)]
-                fv = [unparse(s.value) for s in n.orelse if isinstance(s, ast.Assign)]
-                ok = tv == ['True'] and fv == ['False']
+                tv = [unparse(s.value) for s in n.body if isinstance(s, (ast.Assign, ast.Return))]
+                fv = [unparse(s.value) for s in n.orelse if isinstance(s, (ast.Assign, ast.Return))]
+                ok = (tv == ['True'] and fv == ['False']) if positive else (tv == ['False'] and fv == ['True'])
     res.check(ok, 'R-DOM.required-attributes', ir.fq, "is_required is True exactly for use == 'required'", key='R-DOM.required-attributes|is_required')
 
 
